@@ -13,6 +13,10 @@ pub mod runtime;
 #[cfg(hpbf_verif)]
 pub mod verif {
     pub use crate::smallvec::{SmallVec, SmallVecIntoIter};
+
+    /// True while `Memory::make_accessible` is requesting the new tape buffer.
+    /// Lets a fault-injecting allocator tell tape growth from other requests.
+    pub static IN_TAPE_GROWTH: std::sync::atomic::AtomicBool = std::sync::atomic::AtomicBool::new(false);
 }
 
 use std::{fmt::Debug, hash::Hash};
